@@ -120,6 +120,12 @@ func vh_rcv_step() {
 		vassert(adv >= seqnum.Size(n), "in-order data inside the advertised window is accepted and delivered")
 		vreach("inorder")
 	}
+	// a closed window accepts no data at all
+	if n > 0 && rcvNxt0.Size(acc0) == 0 {
+		vassert(adv == 0 && len(got) == 0, "nothing is delivered into a closed (zero) receive window")
+		vassert(len(c.net.Sent) >= 1, "data sent into a closed window is answered by an ACK")
+		vreach("closed-window")
+	}
 	// data wholly outside [rcvNxt, rcvAcc) delivers nothing and is answered by an ACK
 	if n > 0 && rcvNxt0.Size(acc0) > 0 && !seq.InWindow(rcvNxt0, rcvNxt0.Size(acc0)) && !seq.Add(seqnum.Size(n)-1).InWindow(rcvNxt0, rcvNxt0.Size(acc0)) &&
 		!rcvNxt0.InWindow(seq, seqnum.Size(n)) {
